@@ -329,7 +329,7 @@ fn refl_strategy() -> impl Strategy<Value = Refl> {
             id[8..].copy_from_slice(&t);
             Pay::App(AppReq::Stun(StunReq { mtype: 1, magic: false, id, attrs: vec![], trailer: Hex(vec![]) }))
         });
-        let l2 = if v4 { (0u8..4, 0u8..4, 0u8..5).prop_map(|(pad, spa, tha)| Req::Arp { pad, spa, tha }).boxed() } else { (ndp_opts_wf(), any::<bool>()).prop_map(|(opts, unicast)| Req::Ns { opts, unicast, other_dst: None }).boxed() };
+        let l2 = if v4 { (0u8..4, 0u8..4, 0u8..5).prop_map(|(pad, spa, tha)| Req::Arp { pad, spa, tha, sha_other: false }).boxed() } else { (ndp_opts_wf(), any::<bool>()).prop_map(|(opts, unicast)| Req::Ns { opts, unicast, other_dst: None }).boxed() };
         let req = prop_oneof![
             1 => l2,
             1 => (any::<u16>(), any::<u16>(), bytes(32)).prop_map(|(id, seq, data)| Req::Echo { id, seq, data, pad: 0, ip4_opts: Hex(vec![]) }),
